@@ -265,6 +265,23 @@ class SeqVal:
         return self.fn
 
 
+def compact(vals, keeps):
+    """order-preserving sub-sequence of the scalars `vals` whose `keeps` entry (True or symbolic bool) holds:
+    length = number kept; element j = the value v_m with keep_m and |{l < m : keep_l}| == j"""
+    before = [0]
+    for k in keeps:
+        before.append(sv.add(before[-1], 1 if k is True else ite(k, 1, 0)))
+    length = simp(before[-1]) if isinstance(before[-1], SV) else before[-1]
+
+    def fn(j):
+        r = vals[-1]
+        for m in range(len(vals) - 2, -1, -1):
+            c = sv.and_(keeps[m] if keeps[m] is not True else True, sv.cmp("==", before[m], j))
+            r = ite(c, vals[m], r)
+        return r
+    return SeqVal(length, fn)
+
+
 # ----------------------------------------------------------------------------------------------
 # broadcasting / elementwise
 
